@@ -46,6 +46,15 @@ CHECKS.update({
             "DESIGN.md 4/C03", "Reference-encoded server packets (all reason codes, property orders, elisions), mutated and random streams are decoded under many partitions; results are compared across partitions and with the reference content.", "reference encoder written from the OASIS texts"),
 })
 
+CHECKS.update({
+    "C12": ("exploration", "runtime monitoring: regular-language monitor over the client event stream + loop-death and stop-at-quiescence rules, on a transliterated driver loop around the real client implementation",
+            "DESIGN.md 4/C12", "Seeded start/stop/close/publish requests at every point of seeded transport histories; event stream, loop death and stop-never-stops are judged at quiescence of the finite script.", "the simulator loop is a transliteration of the two drivers' loops; corroborated on the real drivers (C13 harness)"),
+    "C19": ("exploration", "runtime monitoring: back-off waits of the real client implementation against the closed form, lifetime histories with bracketed clock readings",
+            "DESIGN.md 4/C19", "Waits compared with min(base'*2^k, max'); reset rule judged only on samples whose lifetime bracket lies entirely on one side of the stability period.", "Instant::now() inside the implementation is bracketed, not controlled"),
+    "C20": ("exploration", "runtime monitoring: independent query-string parser / percent-decoder and field-by-field comparison over the options the AWS builder hands on",
+            "DESIGN.md 4/C20", "Generated custom-auth inputs and user options; the builder's output is read through the verif accessor.", "accessor calls the builder's own private functions"),
+})
+
 PENDING = {
     "C12": "check under construction in this session (client-impl simulator + real drivers)",
     "C13": "check under construction in this session (real drivers on scripted transports)",
